@@ -879,6 +879,21 @@ fn apply(st: &mut St, op: &str) -> String {
                 }
             }
         }
+        // pd: print (compact and pretty) every node the history has a handle on - the document, every tree outside it, every
+        // part of them: printing returns for whatever the calls so far have built (property C03)
+        "pd" => {
+            use xml_dom::PrettyPrint;
+            let mut total = 0usize;
+            let nodes: Vec<XmlNode> = st.handles.iter().flatten().cloned().collect();
+            for n in nodes {
+                total += n.to_string().len();
+                let mut buf: Vec<u8> = vec![];
+                let _ = n.pretty(&mut buf);
+                total += buf.len();
+            }
+            std::hint::black_box(total);
+            "ok=printed".to_string()
+        }
         "nz" => match n!(1) {
             XmlNode::Element(x) => {
                 x.normalize();
